@@ -316,7 +316,9 @@ func checkC04(p *Prog, r *Report) {
 		r.Fail("transition site "+m, p.Pos(ucs.Body.Pos()), "documented transition site no longer calls the choke point: that edge of the lifecycle is lost")
 	}
 	// Closed is final: notifiers are closed after the loop in Agent.close
-	if f := p.Fn("Agent.close"); r.Anchor("Agent.close", f != nil) {
+	closers := p.agentClosers()
+	r.Anchor("Agent.close", len(closers) > 0)
+	for _, f := range closers {
 		var order []string
 		walkBody(f, func(n ast.Node) bool {
 			if c, ok := n.(*ast.CallExpr); ok {
@@ -330,7 +332,11 @@ func checkC04(p *Prog, r *Report) {
 			return true
 		})
 		ok := len(order) == 4 && order[0] == "loop"
-		r.Check(ok, "close order: loop before notifiers", p.Pos(f.Body.Pos()), strings.Join(order, ","), "Agent.close does "+strings.Join(order, ",")+": the Closed notification (issued by the loop's close callback) must be enqueued before the notifiers are closed")
+		what := "close order: loop before notifiers"
+		if f.Name != "Agent.close" {
+			what += " (" + f.Name + ")"
+		}
+		r.Check(ok, what, p.Pos(f.Body.Pos()), strings.Join(order, ","), f.Name+" does "+strings.Join(order, ",")+": the Closed notification (issued by the loop's close callback) must be enqueued before the notifiers are closed")
 	}
 
 	// ---- R4.4 timing function -------------------------------------------------------------
